@@ -16,7 +16,8 @@ pub enum PKind {
 }
 
 #[derive(Clone, Debug, PartialEq)]
-pub struct Param { pub ch: char, pub kind: PKind, pub imm: bool, pub arg0: bool, pub hex: bool }
+pub struct Param { pub ch: char, pub kind: PKind, pub imm: bool, pub arg0: bool, pub hex: bool, /// carries `enum="bool"` (a type colour: it must not change the encoding or the range checks)
+    pub enm: bool }
 
 #[derive(Clone, Debug, PartialEq)]
 pub struct Sig { pub params: Vec<Param> }
@@ -37,7 +38,7 @@ impl Param {
             '-' => PKind::Pad(1),
             _ => panic!("not a simple param {}", ch),
         };
-        Param { ch, kind, imm: false, arg0: false, hex: false }
+        Param { ch, kind, imm: false, arg0: false, hex: false, enm: false }
     }
     pub fn is_pad(&self) -> bool { matches!(self.kind, PKind::Pad(_)) }
     pub fn is_string(&self) -> bool { matches!(self.kind, PKind::Str { .. }) }
@@ -50,6 +51,7 @@ impl Param {
         if self.arg0 { attrs.push("arg0".into()); }
         if self.imm { attrs.push("imm".into()); }
         if self.hex { attrs.push("hex".into()); }
+        if self.enm { attrs.push("enum=\"bool\"".into()); }
         if let PKind::Str { size, mask, furibug } = &self.kind {
             match size {
                 StrSize::Block(bs) | StrSize::Pascal(bs) => attrs.push(format!("bs={}", bs)),
@@ -220,7 +222,7 @@ pub fn gen_sig(tape: &mut Tape, k: &SigKnobs) -> Sig {
     let mut params = vec![];
     let mut have_o = false; let mut have_t = false;
     for i in 0..n {
-        let c = tape.below(16);
+        let c = tape.below(17);
         let p = match c {
             0 | 1 | 2 => Param::simple('S'),
             3 => Param::simple('f'),
@@ -237,14 +239,15 @@ pub fn gen_sig(tape: &mut Tape, k: &SigKnobs) -> Sig {
                 if tape.bool() {
                     let len = *tape.pick(&[4usize, 8, 16, 1, 32, 64]);
                     let ch = if mask == [0, 0, 0] && tape.bool() { 'z' } else { 'm' };
-                    Param { ch, kind: PKind::Str { size: StrSize::Fixed { len, nulless: tape.chance(1, 4) }, mask, furibug: false }, imm: false, arg0: false, hex: false }
+                    Param { ch, kind: PKind::Str { size: StrSize::Fixed { len, nulless: tape.chance(1, 4) }, mask, furibug: false }, imm: false, arg0: false, hex: false, enm: false }
                 } else {
                     let bs = *tape.pick(&[4usize, 1, 2, 8, 16]);
-                    Param { ch: 'p', kind: PKind::Str { size: StrSize::Pascal(bs), mask: [0, 0, 0], furibug: false }, imm: false, arg0: false, hex: false }
+                    Param { ch: 'p', kind: PKind::Str { size: StrSize::Pascal(bs), mask: [0, 0, 0], furibug: false }, imm: false, arg0: false, hex: false, enm: false }
                 }
             }
             13 => { let mut p = Param::simple(*tape.pick(&['S', 'f', 's', 'b'])); p.imm = true; p }
             14 => { let mut p = Param::simple(*tape.pick(&['S', 'U', 'u', 'b'])); p.hex = true; p }
+            15 => { let mut p = Param::simple(*tape.pick(&['S', 's', 'u', 'b', 'c', 'U'])); p.enm = true; p.imm = tape.bool(); p }
             _ => Param::simple('S'),
         };
         let _ = i;
@@ -258,7 +261,7 @@ pub fn gen_sig(tape: &mut Tape, k: &SigKnobs) -> Sig {
         let mask = if tape.bool() { [0, 0, 0] } else { [tape.raw() as u8, tape.raw() as u8, tape.raw() as u8] };
         let bs = if k.zero_bs && tape.chance(1, 20) { 0 } else { *tape.pick(&[4usize, 1, 2, 8, 16]) };
         let ch = if mask == [0, 0, 0] && tape.bool() { 'z' } else { 'm' };
-        params.push(Param { ch, kind: PKind::Str { size: StrSize::Block(bs), mask, furibug: tape.chance(1, 4) }, imm: false, arg0: false, hex: false });
+        params.push(Param { ch, kind: PKind::Str { size: StrSize::Block(bs), mask, furibug: tape.chance(1, 4) }, imm: false, arg0: false, hex: false, enm: false });
     }
     Sig { params }
 }
@@ -337,11 +340,11 @@ impl Sig {
                         (_, None, Some(l)) => StrSize::Fixed { len: l as usize, nulless: get("nulless").is_some() },
                         _ => return Err(format!("string parameter '{}' needs bs or len", ch)),
                     };
-                    Param { ch, kind: PKind::Str { size, mask, furibug: get("furibug").is_some() }, imm: false, arg0: false, hex: false }
+                    Param { ch, kind: PKind::Str { size, mask, furibug: get("furibug").is_some() }, imm: false, arg0: false, hex: false, enm: false }
                 }
                 c => return Err(format!("unknown signature character {:?}", c)),
             };
-            p.imm = get("imm").is_some(); p.arg0 = get("arg0").is_some(); p.hex = get("hex").is_some();
+            p.imm = get("imm").is_some(); p.arg0 = get("arg0").is_some(); p.hex = get("hex").is_some(); p.enm = get("enum").is_some();
             params.push(p);
         }
         Ok(Sig { params })
